@@ -38,6 +38,9 @@ SRank(i) == ScoreRank(i.kind, i.val)
 LastOfDepth(infos, d) == LET idx == {j \in 1..Len(infos) : infos[j].ok /\ infos[j].depth = d} IN
                          IF idx = {} THEN 0 ELSE CHOOSE j \in idx : \A j2 \in idx : j2 <= j
 Completed(infos, d) == \E j \in 1..Len(infos) : infos[j].ok /\ infos[j].depth > d
+\* index of the last board handed over not later than clock query q (0 = none)
+LastSentUpTo(sends, q) == LET upto == {i \in 1..Len(sends) : sends[i].q <= q} IN
+                          IF upto = {} THEN 0 ELSE CHOOSE i \in upto : \A j \in upto : j <= i
 
 (***************************************************************************)
 (* C18: shape and bounds of the info lines of one run.                     *)
@@ -97,8 +100,11 @@ FullFails(e) ==
          ELSE IF ~(SameAs(Apply(root, m), s) /\ KingsOk(Apply(root, m), s)) THEN {<<"C07", "sent-wrong-board", D(m)>>}
          ELSE {} : j \in 1..Len(e.sends)}
   \cup
-  \* sends and accepted improvements correspond one to one
-  (IF Len(e.sends) # Len(e.infos) \/ \E j \in 1..Min(Len(e.sends), Len(e.infos)) : e.infos[j].ok /\ e.infos[j].pv[1] \notin {MoveText(DescOf(e.sends[j].s)), MoveText(<<e.sends[j].s.d[1], e.sends[j].s.d[2], 0>>)}
+  \* every reported line names the move of the board handed over last at that moment (an engine may report every
+  \* improvement or only the last one of an iteration - what it reports must be what it handed over)
+  (IF \E j \in 1..Len(e.infos) : e.infos[j].ok /\
+        LET ls == LastSentUpTo(e.sends, e.infos[j].q) IN
+        ls = 0 \/ e.infos[j].pv[1] \notin {MoveText(DescOf(e.sends[ls].s)), MoveText(<<e.sends[ls].s.d[1], e.sends[ls].s.d[2], 0>>)}
    THEN {<<"C07", "send-info-mismatch", D(e.cmd)>>} ELSE {})
   \cup
   \* C10: a root move into a position that already occurred twice => completed depths never score below zero
@@ -112,11 +118,13 @@ FullFails(e) ==
   \* such moves are taken out of the mating set and added to the safe set (root_rep gives the count per root move).
   (LET drawn == {m \in legal : \E j \in 1..Len(e.root_rep) : e.root_rep[j][1] = MoveText(m) /\ e.root_rep[j][2] >= 2}
        mate1 == mating \ drawn
-   IN (IF Completed(e.infos, 1) /\ l1 # 0 /\ l1 <= Len(e.sends) /\ mate1 # {} /\ DescOf(e.sends[l1].s) \notin mate1
+       s1 == IF l1 = 0 THEN 0 ELSE LastSentUpTo(e.sends, e.infos[l1].q)
+       s2 == IF l2 = 0 THEN 0 ELSE LastSentUpTo(e.sends, e.infos[l2].q)
+   IN (IF Completed(e.infos, 1) /\ l1 # 0 /\ s1 # 0 /\ mate1 # {} /\ DescOf(e.sends[s1].s) \notin mate1
        THEN {<<"C11", "mate-in-one-missed", D(e.infos[l1].raw)>>} ELSE {})
       \cup
-      (IF e.tag = "mate" /\ Completed(e.infos, 2) /\ l2 # 0 /\ l2 <= Len(e.sends) /\ mate1 = {} /\ safe # {}
-          /\ DescOf(e.sends[l2].s) \notin (safe \cup drawn)
+      (IF e.tag = "mate" /\ Completed(e.infos, 2) /\ l2 # 0 /\ s2 # 0 /\ mate1 = {} /\ safe # {}
+          /\ DescOf(e.sends[s2].s) \notin (safe \cup drawn)
        THEN {<<"C11", "walks-into-mate", D(e.infos[l2].raw)>>} ELSE {})
       \cup
       \* the search gave up by itself (the clock never expired) after it had entered its second iteration: what it handed
@@ -153,12 +161,13 @@ RunFails(e) ==
   \* a larger allowance only extends what a smaller one reported
   (IF ~IsPrefix(SeenSeq(e.infos), SeenSeq(f.infos)) THEN {<<"C07", "infos-not-prefix", D(<<f.cmd, e.k>>)>>} ELSE {})
   \cup
-  \* the boards handed back: exactly the accepted improvements, or exactly the fallback (first move in ordering)
-  (IF Len(e.infos) > 0
-   THEN (IF IsPrefix(SendSeq(e.sends), SendSeq(f.sends)) /\ Len(e.sends) = Len(e.infos) THEN {} ELSE {<<"C07", "sends-not-prefix", D(<<f.cmd, e.k>>)>>})
-   ELSE (IF Len(e.sends) = 1 /\ Has(f, "fallback") /\ SendSeq(e.sends) = f.fallback THEN {}
-         ELSE IF Len(e.sends) = 1 /\ ~Has(f, "fallback") THEN {}
-         ELSE {<<"C07", "fallback", D(<<f.cmd, e.k, Len(e.sends)>>)>>}))
+  \* the boards handed back: exactly those the reference run had handed over by the expiry (a board is handed over right
+  \* after the clock query that admitted it, so "by the expiry" is q <= k), or - when there are none - exactly the fallback
+  (LET before == Cardinality({i \in 1..Len(f.sends) : f.sends[i].q <= e.k})
+       isFallback == Len(e.sends) = 1 /\ (~Has(f, "fallback") \/ SendSeq(e.sends) = f.fallback)
+   IN IF before > 0
+      THEN (IF SendSeq(e.sends) = SubSeq(SendSeq(f.sends), 1, before) THEN {} ELSE {<<"C07", "sends-not-prefix", D(<<f.cmd, e.k, Len(e.sends), before>>)>>})
+      ELSE (IF isFallback THEN {} ELSE {<<"C07", "fallback", D(<<f.cmd, e.k, Len(e.sends)>>)>>}))
   \cup
   \* nothing is accepted after the first expired query
   (IF \E j \in 1..Len(e.infos) : e.infos[j].q > e.k THEN {<<"C07", "accepted-after-expiry", D(<<f.cmd, e.k>>)>>} ELSE {})
